@@ -21,6 +21,17 @@ from lib.common import dec_str, enc_list, enc_opt, enc_str
 SYSTEM_CATALOGS = {"memory", "system", "temp", "_fs_global"}
 BUILTIN_SCHEMAS = {"main", "information_schema", "pg_catalog"}
 T_CONTENT = 7   # content id of the prior schema: table T with the single row (1,)
+# prior states: catalogs (with schemas, each holding table T with one row) that exist before the connect under test.
+# The last three are decoys for pattern-matching existence checks: they differ from the requested name only where the
+# requested (or the existing) name has `_`, the single-character wildcard of LIKE.
+PRIORS = {
+    "nothing": [],
+    "db": [("DB1", [])],
+    "db+schema": [("DB1", ["S1"])],
+    "AXB/SXT": [("AXB", ["SXT"])],
+    "A_B/SXT": [("A_B", ["SXT"])],
+    "A_B/S_T": [("A_B", ["S_T"])],
+}
 
 
 def _probe(conn) -> str:
@@ -69,11 +80,11 @@ def _real(cfg) -> dict:
         dbp = None if storage == "memory" else d
 
         def make_prior(cur):
-            if prior != "nothing":
-                cur.execute("create database DB1")
-            if prior == "db+schema":
-                cur.execute("create schema DB1.S1")
-                cur.execute("create table DB1.S1.T as select 1 x")
+            for cat, schemas in PRIORS[prior]:
+                cur.execute(f"create database {cat}")
+                for sc in schemas:
+                    cur.execute(f"create schema {cat}.{sc}")
+                    cur.execute(f"create table {cat}.{sc}.T as select 1 x")
 
         if storage == "existing":
             with fakesnow.patch(db_path=d):
@@ -85,10 +96,10 @@ def _real(cfg) -> dict:
             other = snowflake.connector.connect()
             if storage != "existing":
                 make_prior(obs.cursor())
-                if prior != "nothing":
-                    other.cursor().execute("use database DB1")
-                if prior == "db+schema":
-                    other.cursor().execute("use schema S1")
+                if PRIORS[prior]:
+                    other.cursor().execute(f"use database {PRIORS[prior][0][0]}")
+                    if PRIORS[prior][0][1]:
+                        other.cursor().execute(f"use schema {PRIORS[prior][0][1][0]}")
             init = _listing(obs, dbp)
             other_before = _session_state(other)
             outs = []
@@ -109,7 +120,7 @@ def _real(cfg) -> dict:
             final = _listing(obs, dbp)
             other_after = _session_state(other)
             other_data = None
-            if other_before[2] == "2003" and prior == "db+schema" and storage != "existing":
+            if other_before[2] == "2003" and PRIORS[prior] and PRIORS[prior][0][1] and storage != "existing":
                 try:
                     other_data = other.cursor().execute("select x from T").fetchall()
                 except Exception as e:  # noqa: BLE001
@@ -128,16 +139,19 @@ def _worker(shard):
 def _model_world(cfg):
     """the abstract initial world the driver is given, and the canonical listing the real initial state must equal"""
     _, _, _, _, storage, prior, _ = cfg
-    schemas = [("S1", T_CONTENT)] if prior == "db+schema" else []
-    enc_s = ",".join(f"{enc_str(n)}={k}" for n, k in schemas) or "-"
+    cats = [(c, [(sc, T_CONTENT) for sc in scs]) for c, scs in PRIORS[prior]]
+
+    def enc_s(schemas):
+        return ",".join(f"{enc_str(n)}={k}" for n, k in schemas) or "-"
+
     if storage == "existing":
         attached, listing = [], []
-        disk = [("OTHER", "-")] + ([("DB1", enc_s)] if prior != "nothing" else [])
+        disk = [("OTHER", "-")] + [(c, enc_s(scs)) for c, scs in cats]
     else:
         on_file = storage == "fresh"
-        attached = [f"{enc_str('DB1')}|{int(on_file)}|{enc_s}"] if prior != "nothing" else []
-        listing = [("DB1", on_file, schemas)] if prior != "nothing" else []
-        disk = [("DB1", enc_s)] if (prior != "nothing" and on_file) else []
+        attached = [f"{enc_str(c)}|{int(on_file)}|{enc_s(scs)}" for c, scs in cats]
+        listing = [(c, on_file, sorted(scs)) for c, scs in cats]
+        disk = [(c, enc_s(scs)) for c, scs in cats] if on_file else []
     return enc_list(attached), enc_list([f"{enc_str(n)}|{s}" for n, s in disk]), (listing, sorted(n for n, _ in disk))
 
 
@@ -223,8 +237,13 @@ def _configs(chk):
     product = list(itertools.product([None, "db1", "DB1", "Db1"], [None, "s1", "S1", "information_schema"], [True, False], [True, False],
                                      ["memory", "fresh", "existing"], ["nothing", "db", "db+schema"], ["first", "second"]))
     adversarial = list(itertools.product(["", "my_db2"], [None, "", "main", "Pg_Catalog", "s_2", "Information_Schema"], [True, False], [True, False],
-                                         ["memory", "fresh"], ["nothing", "db+schema"], ["first", "second"]))
+                                         ["memory", "fresh"], ["nothing", "db+schema"], ["first"]))
     adversarial += list(itertools.product(["dB1"], ["S1", "MAIN", ""], [True, False], [True, False], ["memory", "existing"], ["db", "db+schema"], ["second"]))
+    # names with `_` next to an existing name that differs only at that position (exact, upper-cased name equality is required:
+    # `_` and `%` must not act as LIKE wildcards), both directions, database and schema
+    adversarial += list(itertools.product(["a_b", "A_B"], [None, "s_t"], [True, False], [True, False], ["memory", "fresh", "existing"],
+                                          ["AXB/SXT", "A_B/SXT"], ["first", "second"]))
+    adversarial += list(itertools.product(["axb"], [None, "sxt"], [True, False], [True, False], ["memory", "fresh", "existing"], ["A_B/S_T"], ["first"]))
     return product, adversarial
 
 
@@ -233,7 +252,7 @@ def run(chk) -> None:
     chk.rule = ("complete product database{absent,lower,UPPER,Mixed} × schema{absent,lower,UPPER,information_schema} × create_database × "
                 "create_schema × storage{memory,fresh db_path,db_path with earlier session's files} × prior{nothing,db,db+schema+table} × "
                 f"{{first,second connect}} = {len(product)} configurations, plus {len(adversarial)} adversarial ones (empty strings, built-in "
-                "schema names, unrelated database).  non-trivial = distinct configuration with a database argument")
+                "schema names, unrelated database, names with `_` beside look-alike existing names).  non-trivial = distinct configuration with a database argument")
     cfgs = product + adversarial
     shards = common.chunks(cfgs, 16)
     reals = common.shard_map(_worker, shards)
